@@ -23,9 +23,10 @@ func ExtractTypeInfo(t types.Type) *TypeInfo {
 		return nil
 	}
 
-	// Remove pointer if present
+	// Remove pointer if present (type aliases denote the type they stand for)
+	t = types.Unalias(t)
 	if ptr, ok := t.(*types.Pointer); ok {
-		t = ptr.Elem()
+		t = types.Unalias(ptr.Elem())
 	}
 
 	// Get named type
@@ -53,9 +54,10 @@ func ExtractTypeName(t types.Type) string {
 		return ""
 	}
 
-	// Remove pointer if present
+	// Remove pointer if present (type aliases denote the type they stand for)
+	t = types.Unalias(t)
 	if ptr, ok := t.(*types.Pointer); ok {
-		t = ptr.Elem()
+		t = types.Unalias(ptr.Elem())
 	}
 
 	// Get named type
